@@ -4,7 +4,7 @@ META = {
     'level': 'exploration',
     'rule': ('Random histories (length <= 8 quick / <= 15 thorough) of run_tasks(subset, bust_cache?), '
              'uncache_tasks(subset), is_cached, cached_tasks - 30 % of the runs with failing tasks, whose stored entries must stay exactly as they were - over a universe of 3-8 dependent tasks of types {Pickle '
-             'cache, JSON cache, cache=None, max_parallel=1} x storage {LocalStorage, str path, pathlib.Path, fsspec-local, '
+             'cache, JSON cache, cache=None, max_parallel=1} x storage {LocalStorage, str path, pathlib.Path, relative str / Path with tasks that chdir inside run(), fsspec-local, '
              'fsspec-memory (serial), storage=None} x backend {serial mostly, fork, spawn}. After every operation the '
              'observable state (is_cached of every universe task, key set behind cached_tasks, returned values, set '
              'of executed tasks from start events) is compared with a plain dict model {task -> generation-stamped '
@@ -67,12 +67,19 @@ def run_history(rep, case):
         sys.addaudithook(_audit)
         _AUDIT['installed'] = True
     bad = []
+    cwd0 = os.getcwd()
+    relative = skind in ('relstr', 'relpath')
+    if relative:
+        # the Lab is given a RELATIVE storage directory; some tasks change the working directory inside run() (for
+        # good under the serial backend): the storage stays where it was when the Lab was created
+        os.makedirs(os.path.join(ctl, 'elsewhere', 'deeper'), exist_ok=True)
+        os.chdir(ctl)
     try:
         def mklab():
             return labtech.Lab(storage=make_storage(skind, store), runner_backend=backend, max_workers=case.get('max_workers'),
                                context={})
         lab = mklab()
-        inspect = make_storage('local' if skind in ('pathstr', 'pathobj') else skind, store)
+        inspect = make_storage('local' if skind in ('pathstr', 'pathobj', 'relstr', 'relpath') else skind, store)
         persists = skind != 'null'
         cache = {}
         gen = 0
@@ -112,7 +119,12 @@ def run_history(rep, case):
                 sub, bust = op[1], op[2]
                 failing = set(op[3]) if len(op) > 3 else set()
                 gen += 1
-                engine.write_plan(ctl, gen, {n: {'act': 'raise:ValueError'} for n in failing})
+                tplan = {n: {'act': 'raise:ValueError'} for n in failing}
+                if relative:
+                    for i, n in enumerate(case.get('chdir_tasks') or ()):
+                        tplan.setdefault(n, {})['chdir'] = os.path.join(ctl, 'elsewhere', *(['deeper'] if i % 2 else []))
+                    rep.count('runs_with_relative_storage_and_chdir_tasks')
+                engine.write_plan(ctl, gen, tplan)
                 E, L = plan(spec, sub, set(cache), bust)
                 from vlab.model import taint
                 tainted = taint(spec, failing & E, E)
@@ -182,6 +194,7 @@ def run_history(rep, case):
         return bad
     finally:
         import shutil
+        os.chdir(cwd0)
         _AUDIT['armed'] = False
         if skind == 'fsspec-memory':
             try:
@@ -226,6 +239,7 @@ def run_shard(rep):
     rep.require('cached_tasks_checks', 500)
     rep.require('op_uncache', 300)
     rep.require('mainscript_histories', 12)
+    rep.require('runs_with_relative_storage_and_chdir_tasks', 50)
     rep.require('runs_with_failing_tasks', 100)
     for r in range(1 if rep.tier == 'quick' else 4):
         mainscript_case(rep, ['spawn', 'fork', 'serial'][(rep.shard + r) % 3], rep.seed * 1000 + rep.shard * 10 + r)
@@ -237,10 +251,12 @@ def run_shard(rep):
         spec = gen_spec(rng, nmax=rng.choice([3, 5, 8]), types=TYPES, shape=rng.choice([None, 'layered', 'diamond', 'chain']))
         names = list(spec['tasks'])
         backend = rng.choice(['serial'] * 8 + ['fork', 'spawn'])
-        skinds = ['local', 'pathstr', 'pathobj', 'fsspec-local', 'null'] + (['fsspec-memory'] if backend == 'serial' else [])
+        skinds = ['local', 'pathstr', 'pathobj', 'relstr', 'relpath', 'fsspec-local', 'null'] + (['fsspec-memory'] if backend == 'serial' else [])
         case = {'spec': spec, 'ops': gen_history(rng, names, cfg['maxlen'] if backend == 'serial' else 5),
                 'storage': rng.choice(skinds), 'backend': backend, 'max_workers': rng.choice([1, 2, None]),
                 'fresh_lab': rng.random() < 0.3, 'reuse': rng.random() < 0.5, 'use_run_task': rng.random() < 0.5}
+        if case['storage'] in ('relstr', 'relpath'):
+            case['chdir_tasks'] = rng.sample(names, rng.randrange(1, len(names) + 1))
         bad = run_history(rep, case)
         nruns = sum(1 for o in case['ops'] if o[0] == 'run')
         rep.case([json.dumps(spec, sort_keys=True), case['ops'], case['storage'], backend],
